@@ -8,7 +8,7 @@
 From Coq Require Import String.
 From Coq Require Import List Arith ZArith.
 Import ListNotations.
-From YP Require Import Base.Str Term.Term Engine.Db Engine.DbCursor Engine.DbCursorThms Engine.DbSpec Engine.DbTotal Engine.DbFacts Engine.DbProg Engine.DbProgThms Engine.RunDbProg.
+From YP Require Import Base.Str Term.Term Engine.Db Engine.DbCursor Engine.DbCursorThms Engine.DbSpec Engine.DbTotal Engine.DbFacts Engine.DbProg Engine.DbProgThms Engine.RunDbProg Engine.DbProgInv Engine.DbProgSim.
 
 (* For every history of asserta / assertz / assert_fact / query (all answers, or j answers then
    close) / retract (j answers requested, then closed; j larger than the number of matches = run to
@@ -121,3 +121,26 @@ Example C07_compiled_history :
            [(d "m", [], 0); (d "m2", [], 0)] [(d "flag", 0); (d "p", 1); (d "nope", 1)]
   = OL [OL [otag "answers" [OL [OL []]]; otag "answers" [OL []]]; OL [OL []; OL []; OL []]; onat 4].
 Proof. vm_compute. reflexivity. Qed.
+
+(* ---- compiled code, through the trace inclusion (Engine/DbProgSim.v, see C14_compiled_run_is_cursor_history) ----
+   Every run of compiled code is a history of the cursor machine with the same database, the same identities
+   and the same answers (up to the names of new variables).  So C07_db_refines_list_spec speaks about compiled code:
+   whenever the history of the run is a sequence of atomic operations (flat_map compile ops: no goal is suspended
+   around another database operation), what the run sees, step by step, and the final contents of every
+   predicate are those of the list specification srun.  (With goals suspended inside each other the
+   identity-free specification does not apply - that case is C14's; the operations are then still atomic list
+   operations on the current list: C07_compiled_updates_are_list_operations.)  The history is given
+   existentially; its shape is described in DbProgSim.v. *)
+Theorem C07_compiled_refines_list_spec : forall uf prog, prog_ok prog -> forall n gs s g g' a tr F,
+  cinv F gs s g -> ids_ok (gdb g) (gid g) -> solve uf prog n gs s g = Some (g', a, tr) ->
+  exists evs st' outs, run (match_fact uf) (st_of g) evs = Some (st', outs) /\ Rst g' st' /\ tr_eqv tr (dbouts outs) /\
+    forall ops d0, evs = flat_map compile ops -> R d0 (st_of g) ->
+      map vis outs = snd (srun (match_fact uf) d0 ops) /\ R (fst (srun (match_fact uf) d0 ops)) st'.
+Proof. exact prog_history_refines_list_spec. Qed.
+Print Assumptions C07_compiled_refines_list_spec.
+
+Theorem C07_compiled_run_is_cursor_history : forall uf prog, prog_ok prog -> forall n gs s g g' a tr F st,
+  cinv F gs s g -> solve uf prog n gs s g = Some (g', a, tr) -> Rst g st ->
+  exists evs st' outs, run (match_fact uf) st evs = Some (st', outs) /\ Rst g' st' /\ tr_eqv tr (dbouts outs).
+Proof. exact prog_run_is_cursor_history. Qed.
+Print Assumptions C07_compiled_run_is_cursor_history.
